@@ -1979,7 +1979,7 @@ func genTyped(r *mon.Rand, focus string, thorough bool) *tGraph {
 
 const typedPrefix = ID + "/typed/"
 
-func typedCasesPerShard(cfg mon.Config) int64 { return int64(cfg.Pick(14, 28)) }
+func typedCasesPerShard(cfg mon.Config) int64 { return int64(cfg.Pick(14, 80)) }
 
 func typedUninterrupted(ctx context.Context, g *tGraph, para, seed string, chunks int) (string, bool) {
 	h := runTyped(ctx, g, nil, histOpts{Paras: []string{para}, MaxCalls: 1, InputSeed: seed, InChunks: chunks})
